@@ -8,8 +8,10 @@ from fractions import Fraction
 from ..core import frac
 
 ID = "C06"
-LEAN_MODULE = "CKT.Props.C06Sem"
+LEAN_MODULE = "CKT.Props.C06Gen"
 THEOREMS = [
+    # the outcome arithmetic of the model is the translated source (harness/translate/outcome.py -> Generated/Outcome.lean)
+    "CKT.C06Gen.processOutcomeV2_translated", "CKT.C06Gen.processOutcome_translated",
     # the estimator on an exact outcome distribution is a signed sum over the classical bits of the Pauli-expectation semantics (C06Sem)
     "CKT.C06Sem.signedSum_bitsDesc", "CKT.C06Sem.outcome_sign", "CKT.C06Sem.signedSum_perm", "CKT.C06Sem.estimator_is_signedSum",
     "CKT.C06.paritySign_eq_neg_one_pow",
@@ -40,6 +42,13 @@ LABELS = ["A", "B", 7, (1, 2), "xyz", -3, None]
 
 def _label(x):
     return tuple(x) if isinstance(x, list) else x
+
+
+def regenerate():
+    """`_process_outcome` / `_process_outcome_v2`, translated from cutting_reconstruction.py on every run"""
+    from ..translate import outcome
+    from ..core import REPO, LEAN
+    outcome.regenerate(REPO, LEAN)
 
 
 def cases(rng, tier):
